@@ -503,6 +503,8 @@ func main() {
 		timeoutUnit(res)
 	case "cancel-proc":
 		cancelProcUnit(res)
+	case "cli2":
+		cliUnit(res, 2, []int{1})
 	case "cli3":
 		cliUnit(res, 3, []int{1})
 	case "cli4":
@@ -1030,6 +1032,10 @@ pipelines:
 }
 
 func cliUnit(res *common.Result, maxLen int, statuses []int) {
+	prop := "C07"
+	if *common.Prop == "C02" { // the same invocations judged for "the run reports an error" (C02)
+		prop = "C02"
+	}
 	flagLen := maxLen - 1 // non-default flag sets: target sequences one shorter than the maximum
 	alphabet := []string{"ok", "fail", "pok", "pfail", "unknown", "allow", "skip", "pallow", "ppar"}
 	var idx int64
@@ -1110,8 +1116,8 @@ func cliUnit(res *common.Result, maxLen int, statuses []int) {
 								fmt.Fprintln(os.Stderr, d)
 								os.Exit(2)
 							}
-							if res.AddViolation(common.Violation{Property: "C07", Key: fmt.Sprintf("C07:cli|%v|%s|%d|%v", c.Targets, c.Via, c.Status, cliFlagSets[c.Flags]), Desc: fmt.Sprintf("taskctl %v %s %v: %s", cliFlagSets[c.Flags], c.Via, c.Targets, d), Config: c},
-								map[string]interface{}{"harness": "taskrun", "mode": "plain", "property": "C07", "needs_taskctl": true, "cli": c}) {
+							if res.AddViolation(common.Violation{Property: prop, Key: fmt.Sprintf("%s:cli|%v|%s|%d|%v", prop, c.Targets, c.Via, c.Status, cliFlagSets[c.Flags]), Desc: fmt.Sprintf("taskctl %v %s %v: %s", cliFlagSets[c.Flags], c.Via, c.Targets, d), Config: c},
+								map[string]interface{}{"harness": "taskrun", "mode": "plain", "property": prop, "needs_taskctl": true, "cli": c}) {
 								return true
 							}
 						}
